@@ -5,11 +5,11 @@ import ast
 import re
 
 from ..cfg import handler_names
-from ..core import AnalysisError, calls_in, call_name, dotted, unparse, walk_no_nested
+from ..core import AnalysisError, calls_in, call_name, const_str, dotted, unparse, walk_no_nested
 from ..match import kwarg
 from ..cfg import CFG
 from ..facts import assign_facts, show
-from ..match import canonical_statements
+from ..match import canon, canonical_statements
 from ..report import Ctx
 from .c08 import _event, scope_units
 
@@ -345,4 +345,60 @@ def ru_names_bound(ctx: Ctx) -> None:
     names_rule(ctx)
 
 
-RULES = [r1_arguments_in_caller_scope, r2_positional_binding, r3_per_application_scope, r4_only_symbol_not_defined_defers, r5_failures_inside_expansions_surface, r6_enclosing_scopes_stay_reachable, r7_no_capacity_limit_on_scope_log, r8_argument_list_separators, r9_application_scope_replay, rb_binding_agreement, rm_no_process_lifetime_results, ru_names_bound]
+def r10_block_splice_tokens(ctx: Ctx) -> None:
+    """`{{ name }}` splices a code-block argument: the scanner turns `{{` / `}}` into DOUBLE_LBRACE / DOUBLE_RBRACE (and the single braces into
+    LBRACE / RBRACE), and parse_code_lookup both requires and consumes the closing `}}` so the statement after the splice is parsed from its
+    own first token"""
+    from ..match import if_chain
+
+    li = ctx.repo.func("a816.parse.scanner_states", "lex_initial")
+    chains = [st for st in li.node.body if isinstance(st, ast.If)]
+    if len(chains) != 1:
+        raise AnalysisError("lex_initial: expected one top-level if-chain")
+    arms, _ = if_chain(chains[0])
+    want = {"{": ("DOUBLE_LBRACE", "LBRACE"), "}": ("DOUBLE_RBRACE", "RBRACE")}
+    seen = set()
+    for test, body in arms:
+        if not (isinstance(test, ast.Call) and call_name(test) == "s.accept" and test.args and const_str(test.args[0]) in want):
+            continue
+        ch = const_str(test.args[0])
+        seen.add(ch)
+        ctx.count("brace_arms")
+        if not (len(body) == 1 and isinstance(body[0], ast.If) and isinstance(body[0].test, ast.Call) and call_name(body[0].test) == "s.accept"
+                and body[0].test.args and const_str(body[0].test.args[0]) == ch and len(body[0].body) == 1 and len(body[0].orelse) == 1):
+            raise AnalysisError(f"lex_initial: arm for `{ch}` is not `if s.accept({ch!r}): emit(double) else: emit(single)`; layout not modelled")
+        got = []
+        for st in (body[0].body[0], body[0].orelse[0]):
+            c = st.value if isinstance(st, ast.Expr) else None
+            if not (isinstance(c, ast.Call) and call_name(c) == "s.emit" and len(c.args) == 1 and (dotted(c.args[0]) or "").startswith("TokenType.")):
+                raise AnalysisError(f"lex_initial: arm for `{ch}` emits through `{unparse(st)[:40]}`; not modelled")
+            got.append((dotted(c.args[0]) or "").split(".")[-1])
+        ctx.check(tuple(got) == want[ch], f"lex_initial:`{ch}`-arm", f"`{ch}{ch}` is {want[ch][0]} and a single `{ch}` is {want[ch][1]}; found {got}", fact=True)
+    if seen != set(want):
+        raise AnalysisError(f"lex_initial: brace arms found for {sorted(seen)} only")
+    pc = ctx.repo.func("a816.parse.parser_states", "parse_code_lookup")
+    closers = [c for c in calls_in(pc.node) if call_name(c) == "expect_token" and len(c.args) == 2 and (dotted(c.args[1]) or "").endswith("DOUBLE_RBRACE")]
+    if not ctx.check(len(closers) == 1, "parse_code_lookup:closer-required", "the splice must be closed by `}}`", fact=True):
+        return
+    arg = closers[0].args[0]
+    src = canon(pc.node, arg) if not isinstance(arg, ast.Call) else unparse(arg)
+    stmts = [st for st in pc.node.body]
+    idx = next((k for k, st in enumerate(stmts) if any(c is closers[0] for c in calls_in(st))), None)
+    if idx is None:
+        raise AnalysisError("parse_code_lookup: closer test is nested; layout not modelled")
+    later_next = any(isinstance(st, ast.Expr) and isinstance(st.value, ast.Call) and call_name(st.value) == "p.next" for st in stmts[idx + 1:])
+    if src not in ("p.next()", "p.current()", "p.peek()"):
+        raise AnalysisError(f"parse_code_lookup: closer token comes from `{src[:40]}`; not modelled")
+    ctx.check(src == "p.next()" or (src == "p.current()" and later_next), "parse_code_lookup:closer-consumed",
+              f"the `}}}}` token is consumed (tested through `{src}`{', then p.next()' if later_next else ''}): left in place, it is the first token of the next statement", fact=True)
+
+
+def r11_every_node_gets_its_second_pass(ctx: Ctx) -> None:
+    """`arguments may refer to labels defined later`: a deferred argument is evaluated in the second pass of resolve_labels, which has to
+    reach every node of the program (C02.R3)"""
+    from .c02 import r3_traversal_agreement
+
+    r3_traversal_agreement(ctx)
+
+
+RULES = [r1_arguments_in_caller_scope, r2_positional_binding, r3_per_application_scope, r4_only_symbol_not_defined_defers, r5_failures_inside_expansions_surface, r6_enclosing_scopes_stay_reachable, r7_no_capacity_limit_on_scope_log, r8_argument_list_separators, r9_application_scope_replay, r10_block_splice_tokens, r11_every_node_gets_its_second_pass, rb_binding_agreement, rm_no_process_lifetime_results, ru_names_bound]
